@@ -227,3 +227,39 @@ func fmtVer(v *refkv.Version) string {
 func sortViols(vs []Viol) {
 	sort.SliceStable(vs, func(i, j int) bool { return vs[i].At < vs[j].At })
 }
+
+// OverlappingStarts counts the Start calls that began while a Stop / StopWithContext call on the same
+// election object had begun and not yet returned.
+func (tr *Trace) OverlappingStarts() int {
+	n := 0
+	for _, a := range tr.APIs {
+		if a.Call != "Start" {
+			continue
+		}
+		for _, b := range tr.APIs {
+			if b.Obj == a.Obj && (b.Call == "Stop" || b.Call == "StopWithContext") && (b.Action == nil || b.Action.Kind != ActCancelCtx) &&
+				b.CallSeq < a.CallSeq && (b.RetSeq < 0 || b.RetSeq > a.CallSeq) {
+				n++
+				break
+			}
+		}
+	}
+	return n
+}
+
+// stopOverlappedByStart returns a Stop / StopWithContext call on obj that began in (after, before) and during
+// which (before its return, and before seq `before`) a Start call on the same object began.
+func (tr *Trace) stopOverlappedByStart(obj, after, before int) *APIRec {
+	for _, b := range tr.APIs {
+		if b.Obj != obj || (b.Call != "Stop" && b.Call != "StopWithContext") || (b.Action != nil && b.Action.Kind == ActCancelCtx) ||
+			b.CallSeq <= after || b.CallSeq >= before {
+			continue
+		}
+		for _, a := range tr.APIs {
+			if a.Obj == obj && a.Call == "Start" && a.CallSeq > b.CallSeq && a.CallSeq < before && (b.RetSeq < 0 || a.CallSeq < b.RetSeq) {
+				return b
+			}
+		}
+	}
+	return nil
+}
